@@ -345,7 +345,11 @@ func extractOpTables(t *Tree, pkg string) *opTables {
 			for _, l := range allTags {
 				for _, r := range allTags {
 					key := fmt.Sprintf("arith|%s|%s|%s", op, l, r)
-					cfg := &specCfg{Paths: map[string]sval{"expr.Op": dt(op)}}
+					// operands are arbitrary expressions: a cell describes what happens for operand *values* of the two tags,
+					// so the operand nodes' kinds are fixed to a non-literal kind. A fast path that answers literal operands
+					// without evaluating them branches on the kind; its arms pair a literal's typed Val with a tag, which
+					// TAG-VALUE decides, and they must not smear every cell with per-kind outcomes.
+					cfg := &specCfg{Paths: map[string]sval{"expr.Op": dt(op), "expr.LHS.NodeType": dt("TypeIdentifier"), "expr.RHS.NodeType": dt("TypeIdentifier")}}
 					if v2 {
 						cfg.Call = v2hook(f, []sval{{tup: []sval{symv("L"), dt(l)}}, {tup: []sval{symv("R"), dt(r)}}})
 						outs, ab := cfg.run(f, []sval{symv("ctx"), symv("expr")})
